@@ -816,7 +816,7 @@ class UnicodeDammit:
             if u is not None:
                 break
 
-        if not u:
+        if u is None:
             # None of the encodings worked. As an absolute last resort,
             # try them again with character replacement.
 
